@@ -12,6 +12,7 @@ pub fn global_shader_stages(module: &naga::Module) -> BTreeMap<String, wgpu::Sha
     let mut global_stages = BTreeMap::new();
 
     for entry in &module.entry_points {
+        verif_point!("global_shader_stages:entry");
         let stage = naga_stages(entry.stage);
         update_stages(module, &entry.function, &mut global_stages, stage);
     }
@@ -41,6 +42,7 @@ fn update_stages_blocks(
     global_stages: &mut BTreeMap<String, wgpu::ShaderStages>,
     stage: wgpu::ShaderStages,
 ) {
+    verif_point!("update_stages_blocks");
     for statement in block.iter() {
         match statement {
             naga::Statement::Block(block) => {
@@ -75,6 +77,7 @@ fn update_stages(
     global_stages: &mut BTreeMap<String, wgpu::ShaderStages>,
     stage: wgpu::ShaderStages,
 ) {
+    verif_point!("update_stages");
     // Search the function body to find function call statements
     update_stages_blocks(module, &function.body, global_stages, stage);
 
